@@ -25,6 +25,8 @@ CATALOGUE = {
     "name_in_hwid": ("/dev/ttyS4{n}", "Serial adapter", "EiBotBoard lookalike {name}"),
     # a board recognised by its description ALONE (the hardware id says nothing): the description test is not redundant with the id test
     "desc_only": ("/dev/ttyACM7{n}", "EiBotBoard,{name}", "n/a"),
+    # a foreign device whose description BEGINS with a board's name (it is not called that: it has no name, tag or port name equal to it)
+    "foreign_name_initial": ("/dev/ttyUSB5{n}", "{name} Bridge UART", "USB VID:PID=0403:6015 LOCATION=1-5.{n}"),
     "id_in_desc": ("COM3{n}", "USB VID:PID=04D8:FD92 bridge", "PCI VEN_8086 SER={name} LOCATION=0-{n}"),
 }
 DESC_IS_EBB = {"mac_named", "unnamed", "desc_only"}
